@@ -13,7 +13,8 @@ EXTRACT = ["C01"]
 BINS = ["c01"]
 NEEDS_CICADA = True
 ALLOWED_AXIOMS = []
-PINNED = ["C01_tokenize", "C01_tokenize_escaped", "C01_tokenize_mixed", "C01_plan_mixed_partial", "C01_plan_quoted", "C01_plan_full", "C01_post_passes", "C01_split", "C01_esc_refuted"]
+PINNED = ["C01_tokenize", "C01_tokenize_escaped", "C01_tokenize_mixed", "C01_plan_mixed_partial", "C01_plan_quoted", "C01_plan_full", "C01_post_passes", "C01_split", "C01_esc_refuted",
+          "C01_is_an_env_is_source_regex", "C01_split_env_is_source_regex", "C01_redir_fd_is_source_regex", "C01_redir_gt_is_source_regex"]
 TRUSTED = [
     "Coq 8.16.1 kernel; vm_compute in witnesses/examples only",
     "hand transcription of parse_line / is_arithmetic (Model/Tokenizer.v), tokens_to_redirections, from_tokens, "
@@ -23,6 +24,15 @@ TRUSTED = [
 ]
 ASSUMES = ["expansion passes are taken from the implementation's own output in layer L1c (their model belongs to C10-C12)",
            "execve receives the planned token texts (core.rs:469-489), validated by L2"]
+
+
+
+def gen(ctx=None):
+    """Gen/ParserLineRegexes.v from the regex literals of parser_line.rs / types.rs (round 9; proofs in
+    Proofs/ParserLineRegexProofs.v)"""
+    import regexsites
+    regexsites.gen_parser_line()
+
 
 META = list("|&;<>()$`\\\"'*?[]{},~#!=%^")
 ALPHA = META + [" ", "\t", "a", "é"]
